@@ -152,3 +152,53 @@ theorem escAttr_ampsOk (s : Str) : ampsOk attrRefs (s.flatMap escAttrChar) = tru
   | cons c cs ih => simp only [List.flatMap_cons, ampsOk_escAttrChar, ih]
 
 end HtmlVerif
+
+namespace HtmlVerif
+
+theorem validEscape_textChar (c : Char) (cs rest : Str) :
+    validEscape textSpecials (c :: cs) (escTextChar c ++ rest) = validEscape textSpecials cs rest := by
+  unfold escTextChar
+  by_cases h1 : c = '&'
+  · subst h1; simp [validEscape, textSpecials, crMatchAny, crMatchRef, crMatchNamed, crNamedRefs, List.findSome?, List.isPrefixOf]
+  by_cases h2 : c = '<'
+  · subst h2; simp [validEscape, textSpecials, crMatchAny, crMatchRef, crMatchNamed, crNamedRefs, List.findSome?, List.isPrefixOf]
+  by_cases h3 : c = '>'
+  · subst h3; simp [validEscape, textSpecials, crMatchAny, crMatchRef, crMatchNamed, crNamedRefs, List.findSome?, List.isPrefixOf]
+  simp [h1, h2, h3, validEscape, textSpecials]
+
+/-- what the model writes for text satisfies the property-level statement -/
+theorem validEscape_text (s : Str) : validEscape textSpecials s (s.flatMap escTextChar) = true := by
+  induction s with
+  | nil => simp [validEscape]
+  | cons c cs ih => simp only [List.flatMap_cons, validEscape_textChar, ih]
+
+theorem validEscape_attrChar (c : Char) (cs rest : Str) :
+    validEscape attrSpecials (c :: cs) (escAttrChar c ++ rest) = validEscape attrSpecials cs rest := by
+  unfold escAttrChar
+  by_cases h1 : c = '&'
+  · subst h1; simp [validEscape, attrSpecials, crMatchAny, crMatchRef, crMatchNamed, crNamedRefs, List.findSome?, List.isPrefixOf]
+  by_cases h2 : c = '<'
+  · subst h2; simp [validEscape, attrSpecials, crMatchAny, crMatchRef, crMatchNamed, crNamedRefs, List.findSome?, List.isPrefixOf]
+  by_cases h3 : c = '>'
+  · subst h3; simp [validEscape, attrSpecials, crMatchAny, crMatchRef, crMatchNamed, crNamedRefs, List.findSome?, List.isPrefixOf]
+  by_cases h4 : c = '"'
+  · subst h4; simp [validEscape, attrSpecials, crMatchAny, crMatchRef, crMatchNamed, crNamedRefs, List.findSome?, List.isPrefixOf]
+  by_cases h5 : c = '\''
+  · subst h5; simp [validEscape, attrSpecials, crMatchAny, crMatchRef, crMatchNamed, crNamedRefs, List.findSome?, List.isPrefixOf]
+  by_cases h6 : c = '\r'
+  · subst h6
+    simp [validEscape, attrSpecials, crMatchAny, crMatchRef, crMatchNamed, crNamedRefs, List.findSome?, List.isPrefixOf,
+      crMatchDecimal, List.takeWhile, crDigitsVal, Char.isDigit]
+  by_cases h7 : c = '\n'
+  · subst h7
+    simp [validEscape, attrSpecials, crMatchAny, crMatchRef, crMatchNamed, crNamedRefs, List.findSome?, List.isPrefixOf,
+      crMatchDecimal, List.takeWhile, crDigitsVal, Char.isDigit]
+  simp [h1, h2, h3, h4, h5, h6, h7, validEscape, attrSpecials]
+
+/-- what the model writes for an attribute value satisfies the property-level statement -/
+theorem validEscape_attr (s : Str) : validEscape attrSpecials s (s.flatMap escAttrChar) = true := by
+  induction s with
+  | nil => simp [validEscape]
+  | cons c cs ih => simp only [List.flatMap_cons, validEscape_attrChar, ih]
+
+end HtmlVerif
